@@ -137,6 +137,8 @@ type flowRun struct {
 	post             func(net *simnet.Net, eps []*endpoint) // after the channels are done, before teardown
 	extra            func(net *simnet.Net, eps []*endpoint) // after the endpoints exist, before traffic
 	tap              func(conn, dir int, data []byte)
+	hostile          bool // scripted raw peers share the server: errors on their connections are expected
+	foreign          func(h header, first []byte, ctx mpx.Context, ch mpx.Channel) status.Status
 	probes           int
 	leaked           []string
 	errorsAtTeardown int
@@ -427,7 +429,7 @@ func (r *flowRun) handler(ctx mpx.Context, ch mpx.Channel) (ret status.Status) {
 	first, st := ch.Receive(r.bg)
 	if !st.OK() {
 		simrt.Logf("handler: first Receive -> %s", stName(st))
-		if !r.plan.Faulty {
+		if !r.plan.Faulty && !r.hostile {
 			simrt.Fail("C03-open-lost", "a channel was opened but its handler's first Receive returned %s instead of the opening payload", stName(st))
 		}
 		return status.OK
@@ -439,6 +441,18 @@ func (r *flowRun) handler(ctx mpx.Context, ch mpx.Channel) (ret status.Status) {
 		st := ch.SendAndClose(r.bg, first)
 		simrt.Logf("probe handler echo -> %s", stName(st))
 		return status.OK
+	}
+	if ok && h.nonce == r.plan.Nonce && h.ch >= rawChanBase && h.ch != probeChan && r.foreign != nil {
+		return r.foreign(h, first, ctx, ch)
+	}
+	if r.hostile && (!ok || h.nonce != r.plan.Nonce || h.ch >= len(r.chans) || h.dir != 0) {
+		// a scripted peer's damaged frame that still parsed: its data, its problem; drain and leave
+		r.strayHandlers++
+		for {
+			if _, st := ch.Receive(r.bg); !st.OK() {
+				return status.OK
+			}
+		}
 	}
 	if !ok || h.nonce != r.plan.Nonce || h.ch >= len(r.chans) || h.dir != 0 {
 		r.strayHandlers++
